@@ -103,6 +103,7 @@ HEADER = (
 SIG_GLUED = {"site": "Psize.parse_lines", "condition": "adjacent-fields-glued"}
 SIG_HEADER = {"site": "Psize.parse_lines", "condition": "non-coordinate-line-parsed"}
 SIG_REPORT = {"site": "Psize.__str__", "condition": "parallel-report-raises"}
+SIG_FILE = {"site": "Psize.parse_input", "condition": "file-route-differs-from-string-route"}
 SIG_ICODE = {"site": "Psize.parse_lines", "condition": "insertion-code-read-as-number"}
 
 DEFAULTS = dict(cfac=1.7, fadd=20.0, space=0.5, gmemfac=200, gmemceil=400, ofrac=0.1, redfac=0.25)
@@ -122,6 +123,9 @@ HEADER_LINES = [
     "# comment line that is long enough to reach past column 30 with 1.0 2.0 3.0 4.0 5.0",
     "TER",
     "END",
+    "ENDMDL",
+    "END   ",
+    "MODEL        2",
     "",
     "   ",
     "atom      1  N   ALA     1       1.000   2.000   3.000  0.1000 1.5000",
@@ -564,6 +568,109 @@ def over_capacity(spec):
     return False
 
 
+def two_parts(rng, n, mode):
+    """Two clouds of atoms (protein + ligand, two models) for a file with several sections."""
+    s1, e1, o1 = gen_spec(rng, max(1, n // 2), mode)
+    s2, e2, o2 = gen_spec(rng, max(1, n - n // 2), mode)
+    return [s1, s2], [max(a, b) for a, b in zip(e1, e2)], [min(a, b) for a, b in zip(o1, o2)]
+
+
+def not_enclosed(res, atoms):
+    """Atoms (read back by column) whose sphere is outside the fine box of a sizing result."""
+    if res.get("status") != "OK":
+        return None
+    for a in atoms:
+        for i in range(3):
+            c, r = float(a[1 + i]), abs(float(a[5]))
+            tol = 1e-9 * max(1.0, abs(c))
+            if c - r < res["center"][i] - res["fine"][i] / 2 - tol or c + r > res["center"][i] + res["fine"][i] / 2 + tol:
+                return f"atom sphere {c}+-{r} on axis {i} is outside the fine box (centre {res['center'][i]!r}, length {res['fine'][i]!r})"
+    return None
+
+
+def route_check(ctx, lines, params, atoms, ws, route, twice=False):
+    """ctx.fail when the file route gives another sizing than the string route for the same text;
+    says whether the molecule is then no longer enclosed.  Returns True on a difference."""
+    diff = route_difference(lines, params, twice)
+    ctx.count("file-route-vs-string-route")
+    if diff is None:
+        return False
+    miss = not_enclosed(file_route(lines, params, twice), atoms) if atoms else None
+    what = f"{route}: the file and the same text as lines/string are sized differently ({diff[:500]})" + (f"; from the file, {miss}" if miss else "")
+    ctx.fail(dict(SIG_FILE), what, {"kind": "file-route", "route": route, "lines": lines, "params": params, "whitespace": ws, "twice": twice})
+    return True
+
+
+def sectioned(rng, blocks):
+    """Several coordinate sections in one file, as in two concatenated PQR files (protein +
+    ligand, each closed by TER / END) or a multi-model PQR (MODEL n ... ENDMDL)."""
+    style = rng.choice(["concat", "models", "end-only"])
+    out = []
+    for n, b in enumerate(blocks):
+        coords = [l for l in b if is_coord(l)]
+        if style == "models":
+            out += [f"MODEL     {n + 1:4d}\n"] + coords + ["TER\n", "ENDMDL\n"]
+        elif style == "concat":
+            out += [f"REMARK   1 part {n + 1}\n"] + coords + ["TER\n", "END\n"]
+        else:
+            out += coords + ["END\n"]
+    if style == "models":
+        out.append("END\n")
+    return out
+
+
+def file_route(lines, params, twice=False):
+    """The same text through the FILE route of the sizing (Psize.run_psize = parse_input + set_all;
+    io.dump_apbs calls parse_input before it): run_impl-like dict."""
+    import tempfile
+
+    from pdb2pqr.psize import Psize
+
+    with tempfile.TemporaryDirectory(prefix="pv_C17_route_") as d:
+        path = os.path.join(d, "route.pqr")
+        with open(path, "w", encoding="utf-8") as fh:
+            fh.writelines(lines)
+        p = Psize(**params)
+        try:
+            if twice:
+                p.parse_input(path)
+            p.run_psize(path)
+        except Exception as e:  # noqa
+            return {"status": f"ERR:{type(e).__name__}"}
+    return {"status": "OK", "gotatom": p.gotatom, "gothet": p.gothet, "charge": p.charge, "min": list(p.minlen), "max": list(p.maxlen), "center": list(p.center), "fine": list(p.fine_length), "coarse": list(p.coarse_length), "ngrid": list(p.ngrid), "nsmall": list(p.nsmall), "nproc": list(p.proc_grid), "nfocus": p.nfocus}
+
+
+ROUTE_KEYS = ("status", "gotatom", "gothet", "charge", "min", "max", "center", "fine", "coarse", "ngrid", "nsmall", "nproc", "nfocus")
+
+
+def route_difference(lines, params, twice=False):
+    """None, or a description of how the file route differs from the string route (parse_lines
+    on the same lines, parse_string on the same text).  A line that starts with neither ATOM
+    nor HETATM changes no output (C17_header_lines_ignored): the three routes must agree."""
+    from pdb2pqr.psize import Psize
+
+    s = run_impl(lines, params, twice)
+    f = file_route(lines, params, twice)
+    norm = lambda d: {k: (d.get(k) if d["status"] == "OK" else None) for k in ROUTE_KEYS if k != "status"} if d["status"] == "OK" else {"status": d["status"].split("-")[0]}
+    ns, nf = norm(s), norm(f)
+    if s["status"] != f["status"] and "OK" in (s["status"], f["status"]):
+        return f"run_psize(file) -> {f['status']}, parse_lines(lines) -> {s['status']}" + (f" (gotatom/gothet {s['gotatom']}/{s['gothet']}, centre {s['center']})" if s["status"] == "OK" else "")
+    if ns != nf:
+        keys = [k for k in set(ns) | set(nf) if ns.get(k) != nf.get(k)]
+        return "run_psize(file) vs parse_lines(lines): " + "; ".join(f"{k}: file={nf.get(k)!r} lines={ns.get(k)!r}" for k in sorted(keys)[:5])
+    p = Psize(**params)
+    try:
+        p.parse_string("".join(lines))
+        if twice:
+            p.parse_string("".join(lines))
+        g = (p.gotatom, p.gothet, p.minlen, p.maxlen)
+    except Exception as e:  # noqa
+        g = f"ERR:{type(e).__name__}"
+    if s["status"] == "OK" and g != (s["gotatom"], s["gothet"], s["min"], s["max"]):
+        return f"parse_string(text) vs parse_lines(lines): {g!r} vs {(s['gotatom'], s['gothet'], s['min'], s['max'])!r}"
+    return None
+
+
 def insert_headers(rng, lines, how):
     """how: 'none' | 'top' | 'mixed'"""
     if how == "none":
@@ -798,14 +905,21 @@ def run(ctx):
         spec, ext, off = gen_spec(rng, n, "any" if ws or rng.random() < 0.25 else "cap")
         params, bad = gen_params(rng)
         hdr = rng.choice(["none", "top", "mixed", "mixed"])
-        B_cases.append({"spec": spec, "ws": ws, "params": params, "bad": bad, "hdr": hdr, "ext": ext, "off": off, "twice": rng.random() < 0.4, "mal": rng.random() < 0.2, "deco": gen_deco(rng)})
+        cB = {"spec": spec, "ws": ws, "params": params, "bad": bad, "hdr": hdr, "ext": ext, "off": off, "twice": rng.random() < 0.4, "mal": rng.random() < 0.2, "deco": gen_deco(rng)}
+        if n >= 2 and k % 7 == 3:
+            cB["parts"], cB["ext"], cB["off"] = two_parts(rng, n, "any" if ws else "cap")
+            cB["spec"], cB["hdr"], cB["mal"] = cB["parts"][0] + cB["parts"][1], "sections", False
+        B_cases.append(cB)
 
     # ---------------- materialise texts, run the implementation ---------
     def materialise(c):
         if "lines" in c:
             return
-        base = write_pqr(ctx, c["spec"], c["ws"], deco=c.get("deco"))
-        lines = insert_headers(rng, base, c["hdr"])
+        if c.get("parts"):
+            lines = sectioned(rng, [write_pqr(ctx, sp, c["ws"], deco=c.get("deco")) for sp in c["parts"]])
+        else:
+            base = write_pqr(ctx, c["spec"], c["ws"], deco=c.get("deco"))
+            lines = insert_headers(rng, base, c["hdr"])
         if c.get("mal"):
             m = rng.choice(["short", "junk", "exp", "trunc", "extra", "nonl", "atomonly"])
             c["malkind"] = m
@@ -934,6 +1048,9 @@ def run(ctx):
         spec, ext, off = gen_spec(rng, n, "any" if ws else "cap")
         params, bad = gen_params(rng, allow_bad=False)
         c = {"spec": spec, "ws": ws, "params": params, "bad": bad, "hdr": rng.choice(["none", "top", "mixed"]), "ext": ext, "off": off, "twice": False, "deco": gen_deco(rng)}
+        if n >= 2 and k % 8 == 5:
+            c["parts"], c["ext"], c["off"] = two_parts(rng, n, "any" if ws else "cap")
+            c["spec"], c["hdr"] = c["parts"][0] + c["parts"][1], "sections"
         materialise(c)
         c["impl"] = run_impl(c["lines"], c["params"])
         search_cases.append(c)
@@ -979,6 +1096,8 @@ def run(ctx):
             bare = run_impl([l for l in c["lines"] if is_coord(l)], c["params"])
             if bare != impl:
                 ctx.fail(dict(SIG_HEADER), f"header/comment lines change the result: with={summ(impl)} without={summ(bare)}", {"lines": c["lines"][:400], "params": c["params"], "whitespace": c["ws"], "kind": "header-pair"})
+            # ... on the file route as well: run_psize(file) / parse_string(text) = parse_lines(lines)
+            route_check(ctx, c["lines"], c["params"], atoms, c["ws"], "Psize.run_psize")
 
     # corpus / repo header file through the search as well
     for c in S_cases + [b for b in B_cases if str(b.get("tag", "")).startswith(("corpus", "repo"))]:
@@ -1010,6 +1129,9 @@ def run(ctx):
         ctx.evaluated(("dump", c["pqrpath"].split("/")[-1], len(c["lines"])), c["text"] is not None)
         for sig, what in dump_oracle(c):
             ctx.fail(sig, what, {"kind": "dump_apbs", "pqrpath_rel": c["rel"], "lines": c["lines"], "inrel": c["inrel"]})
+        if any(not is_coord(l) for l in c["lines"]):
+            rbc = read_back(c["lines"], c["ws"])
+            route_check(ctx, c["lines"], dict(DEFAULTS), rbc[0] if rbc else [], c["ws"], "io.dump_apbs (parse_input + run_psize)", twice=True)
     end_to_end(ctx)
 
     # ---------------- stream "entry": console entry points in fresh processes ----
@@ -1110,7 +1232,13 @@ def dump_apbs_stream(ctx, n):
         ws = rng.random() < 0.5
         spec, ext, off = gen_spec(rng, nat, "any" if ws else "cap")
         lines = write_pqr(ctx, spec, ws, path=pqr, deco=gen_deco(rng))
-        if rng.random() < 0.5:
+        if k % 3 == 1 and nat >= 2:
+            parts, _, _ = two_parts(rng, nat, "any" if ws else "cap")
+            deco = gen_deco(rng)
+            lines = sectioned(rng, [write_pqr(ctx, sp, ws, deco=deco) for sp in parts])
+            with open(pqr, "w", encoding="utf-8") as fh:
+                fh.writelines(lines)
+        elif rng.random() < 0.5:
             lines = insert_headers(rng, lines, "mixed")
             with open(pqr, "w", encoding="utf-8") as fh:
                 fh.writelines(lines)
@@ -1162,6 +1290,8 @@ def dump_oracle(c):
             out.append(({"site": "inputgen.Elec.__str__", "condition": "grid-lines-missing"}, "no dime/cglen/fglen in the input file"))
             return out
         sig = dict(SIG_GLUED) if any(glued) else {"site": "inputgen.Elec.__str__", "condition": "grid-lines"}
+        if route_difference(c["lines"], dict(DEFAULTS), True) is not None:
+            sig = dict(SIG_FILE)
         if c["ws"] and summ(run_impl(c["lines"], dict(DEFAULTS), True)) != summ(run_impl(blank_icodes(c["lines"], c["ws"]), dict(DEFAULTS), True)):
             sig = dict(SIG_ICODE)
         if cent != ["cgcent mol 1", "fgcent mol 1"]:
@@ -1471,12 +1601,18 @@ def entry_files(rng, ctx, n):
         (d / sub).mkdir(parents=True, exist_ok=True)
         ws = rng.random() < 0.5
         spec, ext, off = gen_spec(rng, rng.choice([1, 2, 3, 5, 9, 20]), rng.choice(["safe", "safe", "cap"]))
-        kind = "hetatm-only" if k % 7 == 5 else "mixed"
+        kind = "hetatm-only" if k % 7 == 5 else "sections" if k % 4 == 2 and len(spec) >= 2 else "mixed"
         if kind == "hetatm-only":
             spec = [(True, *a[1:]) for a in spec]
         rel = (sub + "/" if sub else "") + ["m.pqr", "na.me.pqr", "noext"][(k // 3) % 3]
         lines = write_pqr(ctx, spec, ws, path=str(d / rel), deco=gen_deco(rng))
-        if k % 2:
+        if kind == "sections":
+            parts, _, _ = two_parts(rng, len(spec), "safe")
+            deco = gen_deco(rng)
+            lines = sectioned(rng, [write_pqr(ctx, sp, ws, deco=deco) for sp in parts])
+            (d / rel).write_text("".join(lines))
+            spec = parts[0] + parts[1]
+        elif k % 2:
             lines = insert_headers(rng, lines, "mixed")
             (d / rel).write_text("".join(lines))
         files.append({"dir": d, "rel": rel, "lines": lines, "ws": ws, "spec": spec, "kind": kind})
@@ -1502,6 +1638,9 @@ def judge_psize(f, given, res):
     if rep != want:
         cond, opt = blame_option(given, lambda q: parse_printed(direct_text(f["lines"], q)) == rep)
         diff = [k for k in rep if rep.get(k) != want.get(k)]
+        rd = route_difference(f["lines"], params)
+        if rd is not None:
+            return [(dict(SIG_FILE), f"psize {' '.join(cli_argv(given))} <file>: printed {({k: rep[k] for k in diff})}, the same text as lines gives {({k: want.get(k) for k in diff})} ({rd[:300]})")]
         fails.append(({"site": "psize.main", "condition": cond, "option": opt}, f"psize {' '.join(cli_argv(given))}: printed {({k: rep[k] for k in diff})}, the sizing for these options is {({k: want.get(k) for k in diff})}"))
     rb = read_back(f["lines"], f["ws"])
     if rb and not any(rb[1]):
@@ -1566,6 +1705,9 @@ def judge_inputgen(f, given, extra, res, cwd):
                     e2["async"] = _e["async"]
                 return in_matches(_blocks, e2)
 
+            rd = route_difference(f["lines"], params)
+            if rd is not None:
+                return [(dict(SIG_FILE), f"inputgen {argv_s}: {path.name} has {got}, the same text as lines gives {e} ({rd[:300]})")]
             if blocks and blocks[0].get("method") != e["method"]:
                 cond, opt = "elec-method", "--method"
             else:
@@ -1786,6 +1928,12 @@ def replay(ctx, data):
         return 1 if fails else 0
     if kind == "entry":
         return replay_entry(ctx, case)
+    if kind == "file-route":
+        diff = route_difference(case["lines"], case["params"], case.get("twice", False))
+        rb = read_back(case["lines"], case.get("whitespace", False))
+        miss = not_enclosed(file_route(case["lines"], case["params"], case.get("twice", False)), rb[0]) if rb else None
+        print("replay:", (f"FAILS: {case.get('route')}: {diff[:500]}" + (f"; {miss}" if miss else "")) if diff else "passes")
+        return 1 if diff else 0
     if kind == "e2e":
         before = len(ctx.failures)
         end_to_end(ctx)
